@@ -18,6 +18,7 @@ type proxyTraceResult struct {
 	fails  string // failure not recorded on a backend with fail_timeout
 	fresh  string // an attempt starts from a URL or header the previous attempt's director / header rules had modified
 	buffer string // the body is buffered under other conditions than {more than one backend, retries enabled}
+	large  string // an exceeded body limit (while buffering, or reported by the backend round trip) is not answered 413
 	other  string
 	n      int
 	traces []string
@@ -71,6 +72,8 @@ func proxyTraces(h H) *proxyTraceResult {
 		{"the client cancels during the first attempt", []step{{0, "cancel", 10}, {1, "ok", 20}}, 100, 2, 0, 499, 1},
 		{"retries disabled (try_duration 0), the backend fails", []step{{0, "err", 10}, {1, "ok", 20}}, 0, 2, 0, 502, 1},
 		{"a single backend that fails once and then answers", []step{{0, "err", 10}, {0, "ok", 20}}, 100, 1, 0, 0, 2},
+		{"the body exceeds its limit while it is buffered", []step{{0, "ok", 10}}, 100, 2, 0, 413, 0},
+		{"the backend round trip fails because the body exceeded its limit", []step{{0, "toolarge", 10}, {1, "ok", 20}}, 100, 2, 0, 413, 1},
 	}
 	for _, sc := range scripts {
 		sc := sc
@@ -98,6 +101,7 @@ func proxyTraces(h H) *proxyTraceResult {
 		var tries []attempt
 		cancelled := aptr{&aobj{name: "context.Canceled", typ: types.Typ[types.Int], f: map[string]aval{}}, ""}
 		backendErr := aiface{aptr{&aobj{name: "err:connection refused", typ: types.Typ[types.Int], f: map[string]aval{}}, ""}, types.Typ[types.Int]}
+		tooLarge := aiface{aptr{&aobj{name: "err:wrapped ErrMaxBytesExceeded", typ: types.Typ[types.Int], f: map[string]aval{}}, ""}, types.Typ[types.Int]}
 		bb := &aobj{name: "buffered body", typ: bbT, f: map[string]aval{}}
 		bb.in = func(o *aobj, path string, t types.Type) aval { return aunk{"body field " + path} }
 		outreq := &aobj{name: "outreq", typ: reqT, f: map[string]aval{"Body": aiface{aptr{&aobj{name: "client body", typ: types.Typ[types.Int], f: map[string]aval{}}, ""}, types.Typ[types.Int]}}}
@@ -138,6 +142,9 @@ func proxyTraces(h H) *proxyTraceResult {
 				return atuple{}, true
 			case strings.HasSuffix(callee, "proxy.newBufferedBody"):
 				bufferings++
+				if strings.Contains(sc.desc, "while it is buffered") {
+					return atuple{anil{}, tooLarge}, true
+				}
 				return atuple{aptr{bb, ""}, anil{}}, true
 			case strings.HasSuffix(callee, "proxy.bufferedBody).rewind"):
 				if who(args[0]) == bb {
@@ -174,7 +181,7 @@ func proxyTraces(h H) *proxyTraceResult {
 			case callee == "net/url.Parse":
 				return atuple{anil{}, backendErr}, true
 			case callee == "errors.Is":
-				return abool(false), true
+				return abool(who(args[0]) == tooLarge.val.(aptr).obj), true
 			case strings.HasSuffix(callee, "proxy.mutateHeadersByRules"):
 				return atuple{}, true
 			case strings.HasSuffix(callee, "proxy.ReverseProxy).ServeHTTP"):
@@ -218,6 +225,8 @@ func proxyTraces(h H) *proxyTraceResult {
 					return anil{}, true
 				case "cancel":
 					return aiface{cancelled, types.Typ[types.Int]}, true
+				case "toolarge":
+					return tooLarge, true
 				}
 				return backendErr, true
 			}
@@ -252,8 +261,15 @@ func proxyTraces(h H) *proxyTraceResult {
 				want = append(want, fmt.Sprintf("backend%d", st.host))
 			}
 		}
-		if (strings.Join(seq, " ") != strings.Join(want, " ") || status != sc.wantStatus) && res.retry == "" {
-			res.retry = fmt.Sprintf("%s; specification: attempts [%s], status %d", tr, strings.Join(want, " "), sc.wantStatus)
+		if strings.Join(seq, " ") != strings.Join(want, " ") || status != sc.wantStatus {
+			msg := fmt.Sprintf("%s; specification: attempts [%s], status %d", tr, strings.Join(want, " "), sc.wantStatus)
+			if sc.wantStatus == 413 {
+				if res.large == "" {
+					res.large = msg
+				}
+			} else if res.retry == "" {
+				res.retry = msg
+			}
 		}
 		buffered := sc.hostCount > 1 && sc.tryDuration != 0
 		if (bufferings == 1) != buffered && res.buffer == "" {
